@@ -417,9 +417,9 @@ func init() {
 				"validators have share/token rate making delegations of 1-2 uband exact",
 			}
 			r.Required = []string{"vote:ok", "vote-rejected:over-power", "block:update", "feeds:1", "unstake:ok", "undelegate:ok", "denoms:ok"}
-			deadline := r.Deadline(4*time.Minute, 40*time.Minute)
-			for i, c := range configs(r.Quick()) {
-				sr := engine.Search(&spec{cfg: c}, engine.SearchOpts{Depth: c.Depth, Deadline: deadline})
+			cfgs := configs(r.Quick())
+			for i, c := range cfgs {
+				sr := engine.Search(&spec{cfg: c}, engine.SearchOpts{Depth: c.Depth, Deadline: r.SliceDeadline(i, len(cfgs), 6*time.Minute, 40*time.Minute)})
 				r.AddSearch(fmt.Sprintf("cfg%d[step=%d,K=%d,every=%d]", i, c.Step, c.MaxFeeds, c.UpdateEvery), c, sr)
 			}
 			r.ConfirmViolations(func(cfg any) engine.Spec { return &spec{cfg: cfg.(Cfg)} })
